@@ -535,3 +535,13 @@ fn sanitize_table_name(table_name: &str) -> String {
     }
     name
 }
+
+#[cfg(feature = "verif")]
+pub fn verif_partition_filename(id: PartitionID, subpartition_key: &str) -> String {
+    partition_filename(id, subpartition_key)
+}
+
+#[cfg(feature = "verif")]
+pub fn verif_sanitize_table_name(table_name: &str) -> String {
+    sanitize_table_name(table_name)
+}
